@@ -276,6 +276,9 @@ def check_seq(pid, tier, seed):
     jobs += we.make_jobs(wl[: (250, 2500)[ti]] + wl2[: (40, 400)[ti]], "seq", [geoms[0], geoms[1]], ["ident"], seed,
                          prefix="x", probeEach=True, real=True, reopenEach=True)
     jobs += we.corpus_jobs(pid)
+    simjobs = [j for j in jobs if not j.get("real") and not j.get("reopenEach")]
+    eng.rng.shuffle(simjobs)
+    eng.lockstep(simjobs[: (1500, 12000)[ti]])
     eng.stats["distinct_seq"] = len({json.dumps([j["steps"], j["segSize"], j.get("reopenEach")], sort_keys=True)
                                      for j in jobs if any(s["op"] in ("store", "delete") for s in j["steps"])})
     eng.final(jobs, "s")
